@@ -843,7 +843,14 @@ def _install_member_aliases(decls):
             continue
         ctors = [k for k in rec.kids if k.kind == 'CXXConstructorDecl' and len([p_ for p_ in k.kids if p_.kind == 'ParmVarDecl']) == 2
                  and any(c.kind == 'CXXCtorInitializer' for c in k.kids)]
-        user_ctors = [k for k in rec.kids if k.kind == 'CXXConstructorDecl' and any(c.kind == 'CompoundStmt' for c in k.kids)]
+        def _compiler_made(k):
+            # the copy / move constructors and an empty default constructor, as the compiler defines them when they are used
+            ps_ = [p_ for p_ in k.kids if p_.kind == 'ParmVarDecl']
+            body_ = [c for c in k.kids if c.kind == 'CompoundStmt']
+            if len(ps_) == 1 and (ps_[0].type or '').replace(' ', '') in ('const%s&' % name, '%s&&' % name):
+                return True
+            return not ps_ and all(not b_.kids for b_ in body_)
+        user_ctors = [k for k in rec.kids if k.kind == 'CXXConstructorDecl' and any(c.kind == 'CompoundStmt' for c in k.kids) and not _compiler_made(k)]
         ok = not user_ctors
         for c_ in ctors:
             ps_ = [p_.name for p_ in c_.kids if p_.kind == 'ParmVarDecl']
